@@ -75,6 +75,9 @@ def run_sim(build, drive, *, start=1000.0, drain=0.0, setup=None, storage=None, 
             # debug messages on (the log records themselves are discarded): the code paths that
             # build the messages run
             sim.circuit.set_debug(True, '*')
+            if _RUNS[0] % 8 == 0:
+                # ... and the simulator's own debug messages in every other one of these
+                sim.circuit.debug = True
         out['sim'], out['objs'] = sim, objs
         ok = await sim.start()
         out['started'] = ok
